@@ -160,6 +160,8 @@ class AllowanceCache(Observer):
         self.options = kwargs
         if cache_backend is None:
             self.cache = LRUCache(maxsize=self.options['maxsize'])
+        else:
+            self.cache = cache_backend
         guard.is_allowed_check = self.cache.wrap(guard.is_allowed_check)
 
     def update(self):
